@@ -405,7 +405,8 @@ func (g *c15gen) gen() *c15cfg {
 			v := in.vals[a.name]
 			if v.set && a.name != "tags" && r.IntN(6) == 0 {
 				g.nprop++
-				v.viaProp = fmt.Sprintf("my-prop%d", g.nprop)
+				// names starting with the first/last letters of the alphabet in either case exercise the boundaries of key normalisation
+				v.viaProp = fmt.Sprintf("%s%d", []string{"my-prop", "my-prop", "zone", "zeta_prop", "Zone", "A-prop", "a"}[r.IntN(7)], g.nprop)
 				c.props[v.viaProp] = v.text
 			}
 		}
